@@ -13,6 +13,7 @@ import (
 	"testing"
 	"time"
 
+	"github.com/aergoio/aergo/v2/consensus"
 	"github.com/aergoio/aergo/v2/consensus/impl/dpos/bp"
 	"github.com/aergoio/aergo/v2/consensus/impl/dpos/slot"
 	"github.com/aergoio/aergo/v2/types"
@@ -165,4 +166,38 @@ func flip(b []byte) []byte {
 	}
 	c[len(c)-1] ^= 1
 	return c
+}
+
+// ---- DPoS.IsConnectedBlock (used by ChainService.addBlock to skip a block without any check):
+// true exactly for a block the chain DB holds under that hash; in particular false for a
+// different block with the number of a stored one (forged twin).
+type c09FakeCDB struct {
+	consensus.ChainDB
+	known map[string]*types.Block
+}
+
+func (f *c09FakeCDB) GetBlock(h []byte) (*types.Block, error) {
+	if b, ok := f.known[string(h)]; ok {
+		return b, nil
+	}
+	return nil, fmt.Errorf("block not found")
+}
+
+func TestVerifC09ConnectedEngine(t *testing.T) {
+	outp := os.Getenv("VERIF_OUT")
+	if outp == "" {
+		t.Skip("no VERIF_OUT")
+	}
+	mk := func(no uint64, ts int64) *types.Block {
+		bi := &types.BlockHeaderInfo{No: no, Ts: ts, PrevBlockHash: make([]byte, 32), ChainId: []byte{1, 2, 3}}
+		b := types.NewBlock(bi, make([]byte, 32), &types.Receipts{}, nil, nil, nil)
+		b.BlockHash()
+		return b
+	}
+	stored, twin, other := mk(5, 1000), mk(5, 1001), mk(9, 1002)
+	d := &DPoS{ChainDB: &c09FakeCDB{known: map[string]*types.Block{string(stored.BlockHash()): stored}}}
+	o := map[string]bool{"stored": d.IsConnectedBlock(stored), "twin_same_number": d.IsConnectedBlock(twin),
+		"unknown": d.IsConnectedBlock(other), "fork_enabled": d.IsForkEnable()}
+	b, _ := json.Marshal(o)
+	os.WriteFile(outp, append(b, '\n'), 0o644)
 }
